@@ -160,7 +160,7 @@ R.contract(
     },
     ensures={
         "all_evaluated": "forall(0, len(individuals), lambda k: problem in individuals[k].fitness_store)",
-        "existing_fitness_kept": "dicts_monotone(individuals[0].fitness_store) or len(individuals) == 0",
+        "existing_fitness_kept": "fitness_stores_monotone()",
         "list_unchanged": "len(individuals) == oldlen(individuals) and forall(0, len(individuals), lambda k: same(individuals[k], oldel(individuals, k)))",
         "counter_bounds": "self.count >= old(self.count) and self.count <= old(self.count) + len(individuals)",
     },
